@@ -101,6 +101,11 @@ def make_scenario(rng, k, nmax=16, regimes=(4, 6), two_phase=True, fields=FIELD_
         sc["F0"] = np.eye(3)
     sc["field_kind"] = fields[(k // 3) % len(fields)]
     sc["debug_log"] = (k % 5 == 3)      # run with a DEBUG-level log handler attached (see debug_logging)
+    sc["persistent_L"] = (k % 2 == 1)   # steady flows are posed with one persistent array object returned on every call (run_scenario)
+    if sc["persistent_L"] and sc["field"].is_constant() and sc["field"].L0.any():
+        D0 = (sc["field"].L0 + sc["field"].L0.T) / 2
+        if abs(np.abs(np.linalg.eigvalsh(D0)).max() - 1.0) < 1e-9:
+            sc["field"] = LField(1.7 * sc["field"].L0)      # not already scaled to unit strain rate (a rescaled array would go unnoticed)
     # params["number_of_grains"] need not equal the mineral's own grain count (a Mineral built with n_grains=... and driven with
     # the default parameter record): the mineral's n_grains is what counts
     sc["params_n"] = sc["n"] if k % 2 == 0 else 3500
@@ -157,10 +162,16 @@ def run_scenario(sc, mineral=None, record=True, times=None, **kw):
     if record:
         rec.__enter__()
     log_ctx = debug_logging() if sc.get("debug_log") else contextlib.nullcontext()
+    getL = fld
+    if sc.get("persistent_L") and hasattr(fld, "is_constant") and fld.is_constant():
+        # the way a user poses a steady flow: `lambda t, x: L` with ONE array object that lives as long as the callable; the code
+        # must not scale or otherwise modify the array it is handed (it is the caller's)
+        Lp = np.array(fld(ts[0], fld.pos(ts[0])), float)
+        getL = lambda t, x: Lp  # noqa: E731
     try:
         with log_ctx:
             for a, b in zip(ts[:-1], ts[1:]):
-                F = m.update_orientations(params, F, fld, (a, b, fld.pos), get_regime=sc.get("get_regime"), **kw)
+                F = m.update_orientations(params, F, getL, (a, b, fld.pos), get_regime=sc.get("get_regime"), **kw)
                 Fs.append(np.array(F))
     finally:
         if record:
